@@ -261,6 +261,74 @@ def rule_cascade(ctx: Ctx) -> RuleResult:
     return rr
 
 
+def _class_flag(C, name):
+    """value of a boolean class-body attribute (`ignore_focus = True`), None when the class body does not set it"""
+    for st in C.node.body:
+        if isinstance(st, ast.Assign) and any(isinstance(t, ast.Name) and t.id == name for t in st.targets) and isinstance(st.value, ast.Constant):
+            return st.value.value
+    return None
+
+
+def rule_layered_cache(ctx: Ctx) -> RuleResult:
+    """A class whose render() is layered over an inherited render() (super().render()) has two cached canvases
+    per size: its own, keyed with the focus flag, and the inherited one, keyed *without* it when the base class
+    sets ignore_focus.  State that the subclass switches during rendering (a mode flag derived from focus) and
+    that the inherited rendering reads is then a hidden input of a canvas cached under a key that does not
+    contain it: every such store must come with _invalidate()."""
+    p = ctx.p
+    rr = RuleResult("INV-LAYER", "C06.1e", "state switched inside a render closure and read by an inherited render() that is cached without the focus flag changes only together with _invalidate()", floor=2)
+    for C in inv.widget_classes(p):
+        r = C.methods.get("render")
+        if r is None or not any(isinstance(n, ast.Call) and isinstance(n.func, ast.Attribute) and n.func.attr == "render" and isinstance(n.func.value, ast.Call) and isinstance(n.func.value.func, ast.Name) and n.func.value.func.id == "super" for n in r.own_nodes()):
+            continue
+        m = p.find_member(C, "render", C)
+        if not m or m[0] != "method" or m[1].cls is None:
+            continue
+        B = m[1].cls
+        if not (_class_flag(B, "ignore_focus") is True and _class_flag(C, "ignore_focus") is not True):
+            continue
+        cx = inv.ClassCtx(p, C)
+        # what the inherited render() reads when it runs on a C instance
+        seen, R_B, work = {}, set(), [m[1]]
+        while work:
+            fi = work.pop()
+            if id(fi) in seen:
+                continue
+            seen[id(fi)] = fi
+            for n in ast.walk(fi.node):
+                if isinstance(n, ast.Attribute):
+                    c = cx.classify_attr(fi, n)
+                    if c is None:
+                        continue
+                    if c[0] == "data" and isinstance(n.ctx, ast.Load):
+                        R_B.add(c[1])
+                    elif c[0] == "method":
+                        work.append(c[1])
+                    elif c[0] == "prop" and isinstance(n.ctx, ast.Load) and c[1].getter:
+                        work.append(c[1].getter)
+        mro = p.mro(C)
+        layer = set(id(k) for k in mro[: mro.index(B)])  # C and the classes between C and B
+        for fi in cx.closure_funcs.values():
+            if fi.cls is None or id(fi.cls) not in layer:
+                continue
+            cfg = cx.cfg(fi)
+            for node in cfg.nodes:
+                a = node.ast
+                if not isinstance(a, (ast.Assign, ast.AugAssign)) or node.kind in ("for", "with"):
+                    continue
+                for t in a.targets if isinstance(a, ast.Assign) else [a.target]:
+                    if not isinstance(t, ast.Attribute):
+                        continue
+                    c = cx.classify_attr(fi, t)
+                    if not (c and c[0] == "data" and c[1] in R_B):
+                        continue
+                    rr.inst(f"{short(fi)}:{norm(a, 50)}", True, {"class": C.name, "inherited_render": short(m[1]), "store": f"{short(fi)}: {norm(a, 60)}"})
+                    invs = [n for n in cfg.nodes if n.kind not in ("entry", "exit", "raise") and cx.node_invalidates(n, fi)]
+                    if not invs or not cfg.must_pass(node, invs, ends=[cfg.exit]):
+                        rr.add(finding("INV-LAYER", fi, a, f"`{norm(a, 60)}` changes state that {short(m[1])}() reads (through self) while rendering, and that rendering is cached without the focus flag ({B.name}.ignore_focus): without _invalidate() the canvas cached for the other value of `{c[1]}` is served (an Edit with wrap='clip' rendered unfocused, then focused, shows the unshifted text)", construct=f"{c[1]} switched without _invalidate"))
+    return rr
+
+
 def run(ctx: Ctx):
     p = ctx.p
     out = [
@@ -275,6 +343,7 @@ def run(ctx: Ctx):
         rule_cache_key(ctx),
         rule_listbox_body(ctx),
         rule_cascade(ctx),
+        rule_layered_cache(ctx),
     ]
     return out
 
@@ -289,5 +358,7 @@ MUTANTS = [
     Mut("trim-unguarded", "urwid/canvas.py", "CompositeCanvas.trim_end", "        if self.widget_info:\n            raise self._finalized_error\n", "", "GUARD|"),
     Mut("filler-mutates-rendered", "urwid/widget/filler.py", "Filler.render", "        canv = CompositeCanvas(canv)\n", "", "CANV|widget.filler.Filler.render"),
     Mut("cache-rows-ignores-focus-mask", "urwid/widget/widget.py", "cache_widget_rows", "        focus = focus and not ignore_focus\n", "", "SIB|"),
+    Mut("edit-render-flag-without-invalidate", "urwid/widget/edit.py", "Edit.render", "        if self._shift_view_to_cursor != bool(focus):\n            # The inherited Text rendering is cached without regard to focus: drop it when the view shift changes\n            self._shift_view_to_cursor = bool(focus)\n            self._invalidate()\n", "        self._shift_view_to_cursor = bool(focus)\n", "INV-LAYER|widget.edit.Edit.render"),
+    Mut("edit-cursor-coords-flag-without-invalidate", "urwid/widget/edit.py", "Edit.get_cursor_coords", "        if not self._shift_view_to_cursor:\n            self._shift_view_to_cursor = True\n            self._invalidate()\n", "        self._shift_view_to_cursor = True\n", "INV-LAYER|widget.edit.Edit.get_cursor_coords"),
     Mut("twin-pad-copy-slice", "urwid/canvas.py", "CompositeCanvas.pad_trim_top_bottom", "self.shards = self.shards.copy()", "self.shards = self.shards[:]", twin=True),
 ]
